@@ -34,6 +34,8 @@ def check(ctx, tier):
     viewrules.slice_normalisation(ctx, tk, "C06.c")
     alias_exposure(ctx, tk)
     materialisation_step(ctx, tk, coh)
+    from .. import hazards as _hz, scopes as _sc
+    _hz.generic(ctx, tk, "C06.z", _sc.scope(tk, "C06"))
     return {"materialising_methods": sorted(coh.ts.materialisers()),
             "entry_states": {q: sorted(v) for q, v in coh.entry.items() if v}}
 
@@ -110,6 +112,11 @@ def materialisation_step(ctx, tk, coh):
         ok = tm.k == "sub" and attr_chain(tm.a[0]) == (selfn, "__data") and tm.a[1].k == "item" and tm.a[1].a[1] == 0 \
             and tm.a[1].a[0].k == "call" and tm.a[1].a[0].a[0].k == "attr" and tm.a[1].a[0].a[0].a[1] == "get_flat_indices"
         ctx.decide("C06.e", f, "the new buffer is the old buffer gathered at the view's flat indices", True if ok else None, node=n.ast, key="gather", engine="E5")
+        fr = tk.E.fresh(tm, fa)
+        ctx.decide("C06.e", f, "the materialised buffer is a copy: it shares no memory with the parent's buffer",
+                   True if fr[0] == "fresh" else (False if fr[0] == "alias" else None),
+                   "`%s` may be a basic slice of the parent's buffer (a numpy view): assigning into the derived array then alters its source" % (tm,),
+                   node=n.ast, key="owned", engine="E3")
     for n in stores["_shape"]:
         tm = fa.term(n.ast.value, n)
         ok = tm.k == "item" and tm.a[1] == 1 and tm.a[0].k == "call" and tm.a[0].a[0].k == "attr" and tm.a[0].a[0].a[1] == "get_flat_indices"
